@@ -323,6 +323,33 @@ static vector<pair<string, function<void()>>> StressCases() {
     files["n1000"] = "x = 1\n";
     v.push_back({"include nesting depth 1000", manifest_files(files)});
   }
+  // a directory where a file is expected: opening it works, reading it fails (EISDIR) -- through the real ReadFile()
+  for (const char* how : {"include sub\n", "subninja sub\n", "rule r\n  command = c\n  depfile = sub\nbuild a: r in\n",
+                          "rule r\n  command = c\nbuild a: r in || sub\n  dyndep = sub\n"}) {
+    string text = how;
+    v.push_back({"a directory where a file is read: " + text.substr(0, text.find('\n')) + (text.find("depfile") != string::npos ? " (depfile)" :
+                                                                                         text.find("dyndep") != string::npos ? " (dyndep)" : ""),
+                 [text]() {
+      g_disk.files.clear();
+      g_disk.Write("build.ninja", text);
+      g_disk.Write("in", "");
+      g_disk.Write("a", "");
+      g_disk.MkdirP("sub");
+      vfs::disk = &g_disk;
+      vfs::active = true;
+      {
+        BuildConfig config;
+        NinjaMain nm("ninja", config);
+        ManifestParser p(&nm.state_, &nm.disk_interface_);
+        string err;
+        if (p.Load("build.ninja", &err)) {
+          DependencyScan scan(&nm.state_, nullptr, nullptr, &nm.disk_interface_, nullptr, nullptr);
+          if (Node* n = nm.state_.LookupNode("a")) scan.RecomputeDirty(n, nullptr, &err);
+        }
+      }
+      vfs::active = false;
+    }});
+  }
   v.push_back({"rule variable cycle", []() {
     State state;
     MemReader r;
